@@ -290,6 +290,15 @@ pub fn exec_rw(start: Vec<ATerm>, rules: Vec<usize>, iters: usize, subst_extract
                 }
             })
             .collect();
+        // half of the runs: the very same rule objects have been used on another e-graph before (rules carry no state from
+        // one e-graph to the next)
+        if desc_hash % 2 == 1 {
+            let mut warm: EGraph<Main> = EGraph::new(());
+            for t in &start {
+                warm.add_expr(to_recexpr::<Main>(t));
+            }
+            let _ = guarded(|| apply_rewrites(&mut warm, &rws));
+        }
         let mut fired = 0;
         for _ in 0..iters {
             if eg.total_number_of_nodes() > 300 {
